@@ -8,7 +8,7 @@ from typing import Dict, List, Optional, Set, Tuple
 from ..cfg import CFG
 from ..model import AnchorError, Program, dotted, kw, last_attr, norm, parent, walk_no_nested
 from ..report import Check
-from .common import calls_in, guards_of, returns_of, stmt_of
+from .common import calls_in, guards_of, need_locals, returns_of, stmt_of
 
 
 def _role(comp: ast.AST) -> Tuple[str, int]:
@@ -222,6 +222,8 @@ def r18_3(prog: Program, chk: Check) -> None:
     chk.rule("R18.3", "inclusion depth and recursion guard: priority + 1 per extend_config, priority stored on every instance, seen-path test before open", floor=6)
     ps = prog.func("options", "_parse_config_section")
     pf = prog.func("options", "parse_config_file")
+    need_locals(ps, "priority", "seen_paths", "module_path", "option_cls")
+    need_locals(pf, "path", "seen_paths", "priority")
     rec = calls_in(ps, "parse_config_file")
     ok = len(rec) == 1 and norm(kw(rec[0], "priority") or ast.Constant(0)) == "priority + 1" and norm(kw(rec[0], "seen_paths") or ast.Constant(0)) == "seen_paths"
     chk.ob("R18.3", "options::_parse_config_section::extend-depth", ok, prog.site("options", ps), "extend_config must recurse with priority=priority + 1 and the accumulated seen_paths")
@@ -277,6 +279,7 @@ def _arm_for_key(ps: ast.FunctionDef, key: str) -> Optional[ast.If]:
 def r18_4(prog: Program, chk: Check) -> None:
     chk.rule("R18.4", "validation discipline: every key arm raises, type-checks the value before use, or hands it to the option's parse(); every parse() raises on a wrong type", floor=12)
     ps = prog.func("options", "_parse_config_section")
+    need_locals(ps, "key", "value", "module_path", "override", "option_cls")
     site = prog.site("options", ps)
     # extend_config
     arm = _arm_for_key(ps, "extend_config")
